@@ -267,6 +267,12 @@ func (p *PIDZero) blockUntilRunnableReady(r Stateable) error {
 		case err := <-p.errorChan:
 			return err
 		case <-startupCtx.Done():
+			if p.ctx.Err() != nil {
+				// startupCtx is a child of the supervisor context: it is done because the
+				// supervisor is shutting down, not because the startup timeout elapsed
+				logger.Debug("Context canceled, stopping runnables")
+				return nil
+			}
 			return fmt.Errorf("timeout waiting for runnable to start: %w", startupCtx.Err())
 		case <-p.ctx.Done():
 			logger.Debug("Context canceled, stopping runnables")
